@@ -13,7 +13,7 @@ from .models import Models
 from .source import Source
 from .spec import Schema
 
-SIDE_MODULES = ["specfns", "vecspec", "autodiff_c", "compiler_c", "analysis_c", "expressions_c", "constraints_c", "problem_c", "derivs_c", "solvers_c"]
+SIDE_MODULES = ["specfns", "vecspec", "autodiff_c", "compiler_c", "analysis_c", "expressions_c", "constraints_c", "problem_c", "derivs_c", "solvers_c", "memo_c"]
 
 
 class Engine:
@@ -166,7 +166,7 @@ def verify_parallel(eng: Engine, keys: list[str], tier: str, timeout_ms: int, wo
         if ct.trusted or ct.bounded:
             skipped[k] = "trusted" if ct.trusted else "bounded"
             continue
-        if k not in eng.src.funcs:
+        if k not in eng.src.funcs and not k.startswith("lemma:"):
             skipped[k] = "missing"
             continue
         for cn in list_cases(ct):
